@@ -1,7 +1,7 @@
 #!/bin/bash
 # runs every registered check of the given tier sequentially; prints one line per property
 tier=${1:-quick}; shift
-props=${@:-C01 C04 C06 C08 C09 C11 C14 C15 C16 C17 C18}
+props=${@:-C01 C04 C05 C06 C08 C09 C11 C14 C15 C16 C17 C18}
 cd /verif
 for p in $props; do
   s=$(date +%s)
